@@ -10,6 +10,7 @@ import (
 func VH_C08_DownloadReplySizes() {
 	vUnroll(300)
 	e := vNewEnv()
+	e.cc.Account.FileRoot = "/own" // this account has its own file root; the server-wide one is /r
 	e.cc.Account.Access = hotline.AccessBitmap{0xff, 0xff, 0xff, 0xff, 0xff, 0xff, 0xff, 0xff}
 	vAssume(e.fs.exists && !e.fs.isDir)
 	size := vInt("file_size")
@@ -62,5 +63,7 @@ func VH_C08_DownloadReplySizes() {
 		vAssert("transfer_size_is_header_plus_remaining", c08U32(xfer) == (headerLen+size-k)&0xffffffff)
 	}
 	vAssert("one_transfer_registered", len(e.ftm.added) == 1 && e.ftm.added[0].Type == hotline.FileDownload)
+	// the stream is produced later from what the registered transfer names: the same file the sizes were computed from
+	vAssert("transfer_names_the_file_the_reply_describes", e.ftm.added[0].FileRoot == e.cc.FileRoot() && string(e.ftm.added[0].FileName) == string(t.GetField(hotline.FieldFileName).Data))
 	vObserveInt("xfer", c08U32(xfer))
 }
